@@ -49,6 +49,7 @@ type dval struct {
 	vals   []string  // smap values
 	line   int       // YAML position of the scalar value (1-based)
 	col    int
+	noPos  bool      // corrupted list element: rejection is required, the position is not compared
 }
 
 type dgen struct {
@@ -989,10 +990,16 @@ func runDoc(kind string, text string, nodes []*dnode, vals []*dval, corruptAt *d
 	err := w.genConf(ro)
 	if corruptAt != nil {
 		if err == nil {
+			if os.Getenv("VERIF_DEBUG") != "" {
+				println("CORRUPT-ACCEPTED\n" + text)
+			}
 			return "unfaithful corrupt-accepted"
 		}
 		pos, _ := xerrors.NewDesc(err).GetValue(xerrors.KeyDataCellPos).(string)
 		want := fmt.Sprintf("Ln %d, Col %d", corruptAt.line, corruptAt.col)
+		if corruptAt.noPos {
+			return "faithful rejected-list-element"
+		}
 		if kind == "yaml" && pos != want {
 			if os.Getenv("VERIF_DEBUG") != "" {
 				println("POSERR got", pos, "want", want, err.Error(), "\n"+text)
@@ -1128,6 +1135,26 @@ func init() {
 			if len(cands) > 0 {
 				corrupt = cands[r.Intn(len(cands))]
 				corrupt.text = "abc"
+			}
+		} else if r.Intn(5) == 0 {
+			// one element of a cross-cell scalar list (a YAML sequence) is no literal of the element type: text that
+			// is not a number, and numbers outside the element kind's range (fractional numbers in integer columns are
+			// in the statement's unspecified remainder: not generated)
+			var cands []*dval
+			var kinds []string
+			for i, n := range nodes {
+				if n.kind == "slist" && n.typ != "string" && !vals[i].absent && len(vals[i].elems) > 0 {
+					cands = append(cands, vals[i])
+					kinds = append(kinds, n.typ)
+				}
+			}
+			if len(cands) > 0 {
+				k := r.Intn(len(cands))
+				corrupt = cands[k]
+				junk := map[string][]string{"int32": {"abc", "2147483648", "-2147483649"}, "uint32": {"abc", "-1", "4294967296"},
+					"int64": {"abc", "9223372036854775808", "12x"}}[kinds[k]]
+				corrupt.elems[r.Intn(len(corrupt.elems))] = junk[r.Intn(len(junk))]
+				corrupt.noPos = true
 			}
 		}
 		text := renderYAML(nodes, vals)
